@@ -11,6 +11,7 @@ import (
 	"github.com/platinummonkey/go-concurrency-limits/limiter"
 	"github.com/platinummonkey/go-concurrency-limits/patterns/pool"
 	"github.com/platinummonkey/go-concurrency-limits/strategy"
+	"github.com/platinummonkey/go-concurrency-limits/strategy/matchers"
 )
 
 // StackCfg describes one limiter stack under test.
@@ -53,6 +54,9 @@ type Stack struct {
 	Reg      *RecRegistry
 	Simple   *strategy.SimpleStrategy
 	Precise  *strategy.PreciseStrategy
+	Lookup   *strategy.LookupPartitionStrategy
+	Pred     *strategy.PredicatePartitionStrategy
+	Parts    []string // partition names, in registration order (partitioned strategies)
 	Created  time.Time
 	DeadlineAt time.Time
 	// Out counts granted-but-not-completed listeners (harness ledger).
@@ -69,8 +73,38 @@ func (st *Stack) Busy() (n int, ok bool) {
 		ok = RootCall(func() { n = st.Simple.GetBusyCount() })
 	case st.Precise != nil:
 		ok = RootCall(func() { n = st.Precise.GetBusyCount() })
+	case st.Lookup != nil:
+		ok = RootCall(func() { n = st.Lookup.BusyCount() })
+	case st.Pred != nil:
+		ok = RootCall(func() { n = st.Pred.BusyCount() })
 	}
 	return
+}
+
+// BinBusy returns the busy count of partition i (registration order).
+func (st *Stack) BinBusy(i int) (n int, ok bool) {
+	var err error
+	switch {
+	case st.Lookup != nil:
+		ok = RootCall(func() { n, err = st.Lookup.BinBusyCount(st.Parts[i]) })
+	case st.Pred != nil:
+		ok = RootCall(func() { n, err = st.Pred.BinBusyCount(i) })
+	}
+	return n, ok && err == nil
+}
+
+// PartCtx returns a context routed to partition name ("" = no key).
+func (st *Stack) PartCtx(parent context.Context, name string) context.Context {
+	if name == "" {
+		return parent
+	}
+	if st.Lookup != nil {
+		return context.WithValue(parent, matchers.LookupPartitionContextKey, name)
+	}
+	if st.Pred != nil {
+		return context.WithValue(parent, matchers.StringPredicateContextKey, name)
+	}
+	return parent
 }
 
 func (st *Stack) StrategyLimit() (n int, ok bool) {
@@ -79,6 +113,10 @@ func (st *Stack) StrategyLimit() (n int, ok bool) {
 		ok = RootCall(func() { n = st.Simple.GetLimit() })
 	case st.Precise != nil:
 		ok = RootCall(func() { n = st.Precise.GetLimit() })
+	case st.Lookup != nil:
+		ok = RootCall(func() { n = st.Lookup.Limit() })
+	case st.Pred != nil:
+		ok = RootCall(func() { n = st.Pred.Limit() })
 	}
 	return
 }
@@ -122,6 +160,30 @@ func BuildStack(c StackCfg) (*Stack, error) {
 	case "precise":
 		st.Precise = strategy.NewPreciseStrategy(c.Limit)
 		strat = st.Precise
+	case "lookup":
+		st.Parts = []string{"a", "b"}
+		parts := map[string]*strategy.LookupPartition{
+			"a": strategy.NewLookupPartitionWithMetricRegistry("a", 0.5, 1, core.EmptyMetricRegistryInstance),
+			"b": strategy.NewLookupPartitionWithMetricRegistry("b", 0.25, 1, core.EmptyMetricRegistryInstance),
+		}
+		var e error
+		st.Lookup, e = strategy.NewLookupPartitionStrategyWithMetricRegistry(parts, nil, int32(c.Limit), core.EmptyMetricRegistryInstance)
+		if e != nil {
+			return nil, e
+		}
+		strat = st.Lookup
+	case "predicate":
+		st.Parts = []string{"a", "b"}
+		parts := []*strategy.PredicatePartition{
+			strategy.NewPredicatePartitionWithMetricRegistry("a", 0.5, matchers.StringPredicateMatcher("a", false), core.EmptyMetricRegistryInstance),
+			strategy.NewPredicatePartitionWithMetricRegistry("b", 0.25, matchers.StringPredicateMatcher("b", false), core.EmptyMetricRegistryInstance),
+		}
+		var e error
+		st.Pred, e = strategy.NewPredicatePartitionStrategyWithMetricRegistry(parts, int32(c.Limit), core.EmptyMetricRegistryInstance)
+		if e != nil {
+			return nil, e
+		}
+		strat = st.Pred
 	default:
 		st.Simple = strategy.NewSimpleStrategy(c.Limit)
 		strat = st.Simple
@@ -212,7 +274,7 @@ func BuildStack(c StackCfg) (*Stack, error) {
 			st.Queue, st.Lim, st.Order = l.QueueBlockingLimiter, l, "fifo"
 		}
 	case "fixedpool":
-		st.Simple, st.Precise = nil, nil
+		st.Simple, st.Precise, st.Lookup, st.Pred, st.Parts = nil, nil, nil, nil, nil
 		var p *pool.FixedPool
 		p, err = pool.NewFixedPool("pool", pord(c.Ordering), c.Limit, ws, minW, maxW, thr, c.Backlog, c.Timeout, nopLogger{}, st.Reg)
 		if err == nil {
